@@ -192,6 +192,11 @@ def lex_run(name, defs, tier, seed, cfgs, maxlen, nchars, tlc_workers=8, livenes
                   metaname="lex-" + name, timeout=3000 if tier == "quick" else 12000, xss="512m")
     if not res["ok"]:
         raise ToolError("LexSpec.tla: TLC reports a violation of the specification's own invariants:\n" + res["out"][-3000:])
+    # the model of the generated code (GraphLex.tla) on the same definitions and alphabets, both modes
+    gl = run_tlc("GraphLex.tla", "GraphLex.cfg", {"DEFS": lex_defs, "MAXLEN": str(max(2, maxlen - 1))}, workers=tlc_workers,
+                 metaname="graphlex-" + name, timeout=3000 if tier == "quick" else 12000, xss="512m")
+    graphlex = {"states": gl["states"], "distinct": gl["distinct"], "depth": gl["depth"], "wall": gl["wall"], "ok": gl["ok"],
+                "tail": "" if gl["ok"] else gl["out"][-2500:]}
     runs = [r[2] for r in tlc_records(res["out"]) if r[0] == "RUN"]
     log("[lex:%s] TLC %d states, %d distinct, %d complete behaviours, %.1fs" % (name, res["states"], res["distinct"], len(runs), res["wall"]))
     bins = build_subjects(metas, cfgs, name)
@@ -281,7 +286,7 @@ def lex_run(name, defs, tier, seed, cfgs, maxlen, nchars, tlc_workers=8, livenes
                         findings.append({"def": meta_by_idx[dd]["id"], "cfg": cfgs[-1], "kind": "mode_diff", "mode": "full", "input": data,
                                          "expected": rep["items"], "got": other["items"], "why": "str mode and utf8=false disagree", "src": meta_by_idx[dd]["src"]})
         extra["mode_pairs_compared"] = ncmp
-    out = {"name": name, "tier": tier, "seed": seed, "cfgs": cfgs, "maxlen": maxlen, "nchars": nchars, "extra": extra,
+    out = {"name": name, "tier": tier, "seed": seed, "cfgs": cfgs, "maxlen": maxlen, "nchars": nchars, "extra": extra, "graphlex": graphlex,
            "tlc": {k: res[k] for k in ("states", "distinct", "depth", "wall")},
            "behaviours": len(runs), "requests": len(requests), "runs": len(requests) * len(cfgs),
            "defs": len(metas), "explored": len({r["d"] for r in runs}),
